@@ -159,7 +159,7 @@ class Recorder:
                           'name': cps(name) if isinstance(name, str) else [],
                           'has_setname': args.get('set_name') is not None, 'setname': cps(args.get('set_name') or ''),
                           'origin': args.get('origin_reference') if args.get('origin_reference') is not None else -1,
-                          'attrs': [], 'has_data': cls == 'channel' and args.get('data') is not None}
+                          'attrs': [], 'has_data': cls == 'channel' and args.get('data') is not None, 'soft_only': False}
                     for k, v in args.items():
                         if k in table and v is not None:
                             ev['attrs'].append(rec.abs_attr(table[k][1], v, table[k][2]))
@@ -228,7 +228,7 @@ class Recorder:
             oid = rec.oids.get(id(item), 0) if item is not None else 0
             if oid:     # only for items that already exist for the recorder (i.e. after their constructor returned)
                 ev = {'op': 'set', 'oid': oid, 'part': 'value', 'label': cps(self_.label), 'val': [rec.abs_scalar(x) for x in rec.flatten(val)] if val is not None else [],
-                      'units': [], 'origin': -1, 'name': [], 'judge': not any(isinstance(x, str) for x in rec.flatten(val)) or type(self_).__name__ in ('TextAttribute', 'IdentAttribute')}
+                      'units': [], 'origin': -1, 'name': [], 'enum_ok': True, 'soft_only': False, 'judge': not any(isinstance(x, str) for x in rec.flatten(val)) or type(self_).__name__ in ('TextAttribute', 'IdentAttribute')}
                 try:
                     vprop.fset(self_, val)
                     ev['outcome'] = 'ok'
@@ -250,7 +250,7 @@ class Recorder:
             uprop.fset(self_, u)
             if oid and not rec.in_write:
                 rec.events.append({'op': 'set', 'oid': oid, 'part': 'units', 'label': cps(self_.label), 'val': [], 'judge': True,
-                                   'units': cps(u.value if isinstance(u, Enum) else str(u)), 'origin': -1, 'name': [], 'outcome': 'ok', 'hc': rec.h['hc_flag']()})
+                                   'units': cps(u.value if isinstance(u, Enum) else str(u)), 'origin': -1, 'name': [], 'enum_ok': True, 'soft_only': False, 'outcome': 'ok', 'hc': rec.h['hc_flag']()})
 
         Attribute.value = property(vprop.fget, vset)
         Attribute.units = property(uprop.fget, uset)
